@@ -54,6 +54,12 @@ def run_one(kind, entry):
         shutil.rmtree(tmp, ignore_errors=True)
     return res
 
+# a validation against a tree on which a check already fails says nothing: every variant would count as caught
+if not selftest:
+    _noisy = evrun.baseline_failures(["C%02d" % i for i in range(1, 21)])
+    if _noisy:
+        print("ABORT: these checks fail on the unchanged /repo with this binary:", _noisy)
+        sys.exit(3)
 jobs = []
 for kind, sub in (("mutant", "patches"), ("refactor", "refactors")):
     idx = os.path.join(ROOT, "mutants", sub, "index.json")
